@@ -98,6 +98,8 @@ def well_behaved(case):
             s = o[2]
             if not set(s.get("reads", [])) <= declared(s):
                 return False
+            if s.get("stamp", 0) >= 2:
+                return False      # stamps data that does not determine the output (outside C01's domain)
     return True
 
 
@@ -142,7 +144,7 @@ def monitors(case, real, want):
             last_ood = None
         elif k == "m":
             last_ood = None
-        if k in ("redo", "ifc", "ood", "targets", "sources"):
+        if k in ("redo", "ifc", "ood", "targets", "sources", "crash"):
             # C11: files the user wrote (at any name) are never modified or removed by a command
             for f, tok in user_files.items():
                 if s["fs"].get(f) != tok:
@@ -153,6 +155,10 @@ def monitors(case, real, want):
                     out.append(("C17", "query %s changed state" % k, i))
                 if s["rv"] != 0:
                     out.append(("C17", "query %s exited %s" % (k, s["rv"]), i))
+        if k in ("redo", "ifc") and s["rv"] == -999:
+            out.append(("C10", "command %r did not terminate (blocked by state left behind?)" % (o,), i))
+        if k == "crash":
+            last_ood = None
         if k in ("redo", "ifc"):
             ts = o[1]
             ran = s["ran"]
